@@ -12,6 +12,7 @@ import (
 	"sort"
 	"strconv"
 	"sync"
+	"time"
 
 	"github.com/mattn/anko/ast"
 	"github.com/mattn/anko/env"
@@ -188,6 +189,9 @@ type Setup func(e *env.Env)
 func Run(ctx context.Context, stmt ast.Stmt, setup Setup) (obs Obs, id int64) {
 	id = nextRunID()
 	ctx = context.WithValue(ctx, ctxKey{}, id)
+	// the programs of the families terminate; under a changed interpreter one may not: it is then interrupted and shows as a wrong outcome
+	ctx, cancelRun := context.WithTimeout(ctx, 10*time.Second)
+	defer cancelRun()
 	e := env.NewEnv()
 	var mu sync.Mutex
 	log := []V{}
@@ -460,7 +464,9 @@ func RunIn(e *env.Env, src string) Obs {
 		o.Cls, o.V = "parse", V{T: "err", S: err.Error(), L: []V{}}
 		return o
 	}
-	res, err := runRecover(context.Background(), e, stmt)
+	ctx, cancelRun := context.WithTimeout(context.Background(), 10*time.Second)
+	defer cancelRun()
+	res, err := runRecover(ctx, e, stmt)
 	if err != nil {
 		o.Cls, o.V = "err", V{T: "err", S: err.Error(), L: []V{}}
 		return o
